@@ -419,13 +419,18 @@ pub fn trie_case(rng: &mut Rng, rep: &mut Report, idx: u64, small: bool, replay:
 pub fn svob_case(rng: &mut Rng, rep: &mut Report, idx: u64, replay: serde_json::Value) {
     let sizes = [0usize, 1, 31, 32, 33, 63, 64, 65, 95, 96, 97, 127, 128, 129, 255, 256, 257, 1000];
     let size = if rng.chance(3, 4) { *rng.pick(&sizes) } else { rng.below(300) };
-    let mut v = SimpleVob::alloc(size);
+    // half of the programs run on a vector with spare capacity, like TokTrie::alloc_token_set()
+    // (= alloc_with_capacity(vocab, vocab + 1), a whole spare word when vocab % 32 == 0)
+    let spare = if rng.chance(1, 2) { 0 } else { *rng.pick(&[1usize, 1, 1, 32, 33]) };
+    let mut v = if spare == 0 { SimpleVob::alloc(size) } else { SimpleVob::alloc_with_capacity(size, size + spare) };
     let mut model: BTreeSet<usize> = BTreeSet::new();
     let mut msize = size;
+    // number of storage words (the capacity, in words)
+    let mut mwords = (size + spare).div_ceil(32);
     let mut log: Vec<String> = vec![];
     macro_rules! viol {
         ($kind:expr, $detail:expr) => {{
-            let d = json!({"size": size, "ops": log, "oracle": $detail});
+            let d = json!({"size": size, "spare_capacity": spare, "ops": log, "oracle": $detail});
             rep.violation($kind, &[], d, replay.clone());
             return;
         }};
@@ -512,15 +517,18 @@ pub fn svob_case(rng: &mut Rng, rep: &mut Report, idx: u64, replay: serde_json::
                 log.push(format!("or_shorter {os}"));
             }
             10 => {
-                let ns = msize + rng.below(70);
+                // documented precondition: resize never shrinks the storage
+                let ns = msize.max((mwords.max(1) - 1) * 32 + 1).max(if mwords == 0 { 0 } else { 1 }) + rng.below(70);
                 v.resize(ns);
                 msize = ns;
+                mwords = ns.div_ceil(32);
                 log.push(format!("resize {ns}"));
             }
             11 => {
                 v.trim_trailing_zeros();
                 let words_needed = model.iter().next_back().map_or(0, |&m| m / 32 + 1);
-                if words_needed != msize.div_ceil(32) {
+                if words_needed != mwords {
+                    mwords = words_needed;
                     msize = words_needed * 32;
                 }
                 log.push("trim_trailing_zeros".into());
@@ -550,7 +558,8 @@ pub fn svob_case(rng: &mut Rng, rep: &mut Report, idx: u64, replay: serde_json::
                 }
             }
             _ => {
-                let mut c = SimpleVob::alloc(msize);
+                // (set_from copies the storage: same size and same capacity required)
+                let mut c = SimpleVob::alloc_with_capacity(msize, (mwords * 32).max(msize));
                 c.set_from(&v);
                 if c != v {
                     viol!("set_from", json!({}));
